@@ -53,6 +53,53 @@ def c13_extra(ctx):
     return out
 
 
+def c14_extra(ctx):
+    out = {"coverage": {}, "violations": [], "broken": [], "evaluations": 0, "samples": [], "distinct": []}
+    binary, err = proc.build_binary(ctx)
+    if not binary:
+        out["broken"].append({"what": "correspondence", "name": "solstat binary does not build", "log": err})
+        return out
+    root = proc.scratch_root()
+    try:
+        rnd = random.Random(ctx["seed"])
+        n = 400 if ctx["tier"] == "thorough" else 60
+        cases = proc.c14_cases(ctx, binary, root, rnd, n)
+    finally:
+        shutil.rmtree(root, ignore_errors=True)
+    req = os.path.join(ctx["work"], "resolve.tsv")
+    res = os.path.join(ctx["work"], "resolve.out")
+    open(req, "w").write("\n".join(c["request"] for c in cases) + "\n")
+    with open(req, "rb") as fin, open(res, "wb") as fout:
+        subprocess.run([os.path.join(ctx["verif"], "lean", ".lake", "build", "bin", "driver")], stdin=fin, stdout=fout)
+    verdicts = {}
+    for l in open(res, encoding="utf-8", errors="replace"):
+        f = l.rstrip("\n").split("\t")
+        if len(f) >= 6 and f[1] == "RESOLVE":
+            verdicts[int(f[0])] = (f[3], f[5])
+    agree = dis = 0
+    for i, c in enumerate(cases):
+        a, detail = verdicts.get(i + 1, ("E", "no verdict"))
+        c2 = {k: v for k, v in c.items() if k != "request"}
+        if a == "A":
+            agree += 1
+        else:
+            dis += 1
+            out["broken"].append({"what": "correspondence", "name": "binary vs model of option resolution", "case": c2, "detail": detail[:600]})
+        if c["oracle"] == "VIOL":
+            out["violations"].append({"kind": "PROC", "group": "config", "why": c["why"], "case": c2})
+        out["distinct"].append(hashlib.sha1(repr(c2).encode()).hexdigest())
+    out["evaluations"] = len(cases)
+    out["agree"] = agree
+    out["oracle_ok"] = sum(1 for c in cases if c["oracle"] == "ok")
+    out["coverage"]["binary_runs"] = len(cases)
+    out["coverage"]["binary_vs_model"] = {"agree": agree, "disagree": dis}
+    out["coverage"]["case_mix"] = {"with_toml": sum(1 for c in cases if c["toml"] is not None), "failing_exit": sum(1 for c in cases if c["exit"] != 0)}
+    out["samples"] = [{k: v for k, v in c.items() if k != "request"} for c in cases[:3]]
+    # keep only the first few broken entries
+    out["broken"] = out["broken"][:3]
+    return out
+
+
 PROPS = {
     "C01": {
         "theorems": {
@@ -304,6 +351,23 @@ PROPS = {
         "assumptions": [
             "per-process RandomState is represented by a universally quantified permutation of the map's entries; that a HashMap cannot do anything a permutation cannot is an assumption (runtime part: the same findings are rendered in fresh processes and the binary is run repeatedly on differently-created trees; bytes must be identical)",
             "Rust orders Strings byte-wise = by code point (UTF-8), BTreeSet<i32> lexicographically by elements",
+        ],
+    },
+    "C14": {
+        "theorems": {
+            "Solstat.Props.C14": ["documented_names_accepted", "documentation_complete", "tables_injective", "defaults_selectable",
+                                  "tables_lowercase", "dispatch_by_name", "names_by_name", "patterns_residue_empty", "asciiLower_idem",
+                                  "strTo_case_insensitive", "strTo_accepts", "strTo_unknown", "mapNames_ok", "resolve_patterns",
+                                  "resolve_path", "unknown_name_fails"],
+        },
+        "obs": [],
+        "kinds": [],
+        "extra": c14_extra,
+        "rule": "a case is one run of the built solstat binary in a scratch tree with three candidate directories (./contracts, the configuration file's path, --path) in which every pattern has a finding, with a generated TOML file (random subset and order of documented names, random letter case, sometimes an unknown name, with/without path key) and with/without --path/--toml; distinct by the case description",
+        "assumptions": [
+            "clap and the toml/serde deserialiser are not modelled (exercised through the binary)",
+            "pattern names are ASCII (Rust's to_lowercase is Unicode-aware: U+212A KELVIN SIGN lower-cases to 'k'); the model lower-cases ASCII letters only",
+            "the documentation tables and Solstat.toml are read by the translator on every run",
         ],
     },
 }
